@@ -232,7 +232,7 @@ func TestC01_RandomTrees(t *testing.T) {
 		"random typed expression trees to depth 5 over literals, data variables of every integer width / float32/64 / string / bool / nil / slices / maps / structs, unary - !, postfix ++ --, all binary operators, ternary, index, member access, calls of contract-trivial built-ins; ~15% with one injected fault (mixed types, /0, %0, unknown identifier, out-of-range literal, unknown function/property) on a certainly evaluated path. Each tree is printed in two layouts (minimal parentheses vs. random: full parentheses, redundant parentheses, random whitespace/newlines/CRLF) and both must render the reference value and agree with each other. Non-trivial: >= 2 operators of different classes and minimal != full parenthesisation, or a faulted tree. Distinct by hash of the minimal source + data.")
 	defer c.Finish()
 	in := interp()
-	runRapid(t, c, 25000, 60000, func(rt *rapid.T) {
+	runRapid(t, c, 25000, 180000, func(rt *rapid.T) {
 		env := genDataEnv().Draw(rt, "data")
 		g := &exprGen{env: env}
 		k := rapid.SampledFrom([]refint.Kind{refint.KInt, refint.KInt, refint.KFloat, refint.KStr, refint.KBool}).Draw(rt, "kind")
@@ -296,7 +296,7 @@ func TestC01_Assignment(t *testing.T) {
 		"'{{ x = E; x }}' for random typed trees E (including ternaries and comparisons at top level) must render what '{{ E }}' renders: the right-hand side of an assignment is a complete expression. Non-trivial: E has an operator of level below additive (comparison, equality, ternary) or two operators. Distinct by hash of source + data.")
 	defer c.Finish()
 	in := interp()
-	runRapid(t, c, 8000, 25000, func(rt *rapid.T) {
+	runRapid(t, c, 8000, 75000, func(rt *rapid.T) {
 		env := genDataEnv().Draw(rt, "data")
 		g := &exprGen{env: env}
 		k := rapid.SampledFrom([]refint.Kind{refint.KInt, refint.KFloat, refint.KStr, refint.KBool, refint.KBool}).Draw(rt, "kind")
